@@ -646,7 +646,7 @@ class HDF5DataFrame(DataFrame):
                     if filter_array is None or (i + start_row <len(filter_array) and filter_array[i + start_row] == True):
                         f.write(_csv_line(row))
 
-                if len(chunk_data[0]) < chunk_row_size:
+                if len(chunk_data) == 0 or len(chunk_data[0]) < chunk_row_size:
                     break
                 else:
                     start_row += chunk_row_size
